@@ -435,6 +435,22 @@ func (rs *runState) execStep(s specStep) error {
 		}
 		defer func() { env.Store.CommitFault = nil }()
 	}
+	if s.F == "rerr" {
+		// the engine's iterator fails once for this process: the first Next of its next iterator
+		proc := s.P
+		fired := false
+		var fmu sync.Mutex
+		env.Store.IterFault = func(p string, iter, nth int) error {
+			fmu.Lock()
+			defer fmu.Unlock()
+			if p == proc && !fired {
+				fired = true
+				return errors.New("injected transient iterator error")
+			}
+			return nil
+		}
+		defer func() { env.Store.IterFault = nil }()
+	}
 	if _, isWriter := rs.b.WOps[s.P]; isWriter && firstWriterAction[s.A] {
 		st := env.Sched.Peek(s.P)
 		if st.Exists && !st.Finished {
